@@ -1,27 +1,21 @@
 use crate::common::*;
+use crate::props::c09::*;
 use std::time::Instant;
 pub fn check(rep: &mut Report) {
-    let units_only = {
-        let mut c = fresh_builtin_ctx();
-        for m in ["units::si", "units::imperial", "units::us_customary", "units::misc", "units::astronomical", "units::bit", "units::cgs", "units::fff", "units::hartree", "units::humorous", "units::nautical", "units::partsperx", "units::placeholder", "units::planck", "units::stoney", "units::time", "units::currencies", "units::mixed"] {
-            let r = run(&mut c, &format!("use {m}"));
-            if !r.is_ok() { println!("{m}: {:?}", r.err_string()); }
-        }
-        c
-    };
-    for (name, ctx) in [("all", all_ctx()), ("prelude", prelude_ctx()), ("units_only", units_only)] {
+    let defs = scaffold();
+    let mut ctx = prelude_ctx();
+    for d in &defs {
+        let src = render_def(d);
         let t = Instant::now();
-        for _ in 0..200 { let _c = ctx.clone(); }
-        let clone_us = t.elapsed().as_micros() as f64 / 200.0;
+        let r = run(&mut ctx, &src);
+        println!("{:?} {:.3}s :: {}", r.is_ok(), t.elapsed().as_secs_f64(), src.replace('\n', " "));
+    }
+    for e in ["1", "xv", "pv.a", "true", "xs", "ff", "gv", "pv", "fact"] {
         let mut c = ctx.clone();
+        println!("running {e}");
         let t = Instant::now();
-        for i in 0..200 { let _ = run(&mut c, &format!("(2 * metre) * ({i} * inch)")); }
-        let interp_us = t.elapsed().as_micros() as f64 / 200.0;
-        let mut c = ctx.clone();
-        let t = Instant::now();
-        for i in 0..200 { let _ = run(&mut c, &format!("let zz{} = (2 * metre) * ({i} * inch)", i % 3)); }
-        let let_us = t.elapsed().as_micros() as f64 / 200.0;
-        println!("{name}: clone {clone_us:.0} us, interpret expr {interp_us:.0} us, let {let_us:.0} us, units {}", ctx.unit_names().len());
+        let r = run(&mut c, e);
+        println!("  {} {:.3}s", r.fingerprint(), t.elapsed().as_secs_f64());
     }
     rep.states = 1; rep.transitions = 1;
 }
